@@ -21,9 +21,9 @@ for f in sorted(glob.glob('/verif/seeded/C*/meta.json')):
 txt = """
 ### 12.6 Seeded changes and which check catches them
 
-Nine rounds of fresh sub-agents: m1/m2 against the tree with only the hooks; then, against the tree with the repairs
+Eleven rounds of fresh sub-agents: m1/m2 against the tree with only the hooks; then, against the tree with the repairs
 made so far, m3/m4 (20 properties), two more for 14 properties, three times two more for all 20, three more
-for all 20 and twice two more for all 20 (17 or 19 changes per property, 368 in all). From the second round on the agents were told one-line summaries
+for all 20 and three times two more for all 20 (19 or 21 changes per property, 408 in all). From the second round on the agents were told one-line summaries
 of the changes already known for the property and asked for other sites, mechanisms and clauses (in the last rounds also:
 other entry points, fast paths, rarely used options, boundary sizes, error paths, state kept between calls, caches,
 Python / CLI layers, the last element of structures). Each agent saw only the property text and its own scratch worktree,
@@ -36,25 +36,39 @@ Rust tests were run by hand). Seven m1/m2 patches had to be re-applied by hand a
 down as the monitors grew: 18 of 40 (round four), 11 of 40 (round five), about 17 of 40 (round six: 3 missed, 14 gaps
 closed after reading the descriptions but before the first run), 24 of 60 (round seven, first run made before any
 extension), about 19 of 40 (round eight: 8 missed, 11 gaps closed after reading the descriptions but before the first run), 15 of 40 (round nine,
-first run made before any extension). Each miss had the same cause: the workload did not drive the code concerned - another entry point (command
+first run made before any extension), 17 of 40 (round eleven, first run made before any extension; one of them inconclusive, not missed: the
+library's own accessor panicked inside the C19 worker). Each miss had the same cause: the workload did not drive the code concerned - another entry point (command
 line, Python binding, `ConfigBuilder`, file-based loading, the stateless tokenizer, the older split API, a named pipe),
 a rarely used option (debug mode, `enableNormalize: false`, reversed plugin order, no fallback provider, projections with
 a handler), a size nobody generated (exactly 65,535 characters, 15 user dictionaries, 256 homographs, 2^20 trie units,
 1,024 dictionary forms, 33 threads, a compound with one unit, a lookup text beyond 65,535 bytes), an older file format
 (user dictionaries of versions 1 and 2), a fault nobody injected (an analysis that fails after its path was found, a
 sink that takes a few bytes per call) or an API sequence (resolve, then read more rows; a second `read_conn`; a second
-`compile`; analysing into a list that was the target of a split). The workloads were extended every time (see the `notes` of each
+`compile`; analysing into a list that was the target of a split; round eleven: a second `compile()` after a failed one, a
+`read_lexicon()` that fails after `resolve()`, `set_mode` before an on-demand split, a copy of a built buffer, `#` inside a
+`rewrite.def` entry, upper-case hex escapes, regexes with a top-level alternation, dictionaries in the formats without synonym
+ids, a narrow `fields=` with a projection, an input line the command-line tool must refuse, texts whose only terminator is
+`・・・`). The workloads were extended every time (see the `notes` of each
 `seeded/<id>/meta.json`) and all of these are detected now, but the honest expectation for a change nobody has seeded yet
 is a detection rate of roughly 60 %%, not 98 %%. One miss of round six was a defect of the harness itself: each worker listed
 only its first 40 violation records and records labelled as known finding D1 filled that list (labelled and unlabelled
 records now have separate quotas). Side remarks of the agents about the unchanged tree led to defects D25 - D30 of 12.3; the workload written for C10-m16
-(round eight) found D32 on the unchanged tree at its first run.
+(round eight) found D32 on the unchanged tree at its first run. Round eleven gave D33 - D36: two from side remarks of the agents
+(`2,30万`; a huge regex `maxLength`), one from a remark that had been filed under "not claimed" until a second agent made it
+again (D34, shared text of split lists), one from the workload written for C11-m19 (D36).
 One change of round nine (C18-m18) makes threads block each other for good; a check that only had a watchdog would have
 ended "inconclusive", so C18 got a progress monitor with a control thread (12.4, bounded progress).
 
 Result of the sweeps (`lib/sweep_seeded.sh` applies to /repo and reverts; `lib/sweep_alt.sh` uses a scratch worktree
 through `VERIF_REPO`, so that long runs against /repo are not disturbed): **%d of %d are detected by the quick check of
-the property they were written for.** The other six:
+the property they were written for.** The other nine:
+
+* C02-m21 - a stale provider buffer that only matters for regex words of 64 and more characters next to dictionary words
+  of that length; C02's texts have none; detected by `./check C13` (`oov_candidates`).
+* C15-m19 - the default of an omitted `enableNormalize` key; the statement speaks about normalisation being enabled, every
+  generated configuration spells the key out: not claimed.
+* C03-m20 - `try_borrow_mut` replaced by `borrow_mut` in `collect_results`; harmless since repair 3d6ce48 (the list
+  detaches from a shared text first; its demonstration fails only on the tree before that repair).
 
 * C03-m2 and C10-m1 - the same dropped `clear()`; harmless since repair 36f4a80 (detected before that repair).
 * C11-m9 - a derived `Default` for the field request; harmless since repair ad6f17a (its demonstration passes with the
@@ -80,7 +94,14 @@ found), C18 (hundreds of compounds first split under contention), C01 (single-un
 stacks), C05 (output path that already holds a file), C06 (references beyond 2^28, inline references in one column only),
 C07 (KANJI of other byte widths), C10 (provider errors and failing input-text plugins), C11 (lookup into a used list),
 C12 (missing listed file, relative names), C13 (stacks without the simple provider), C14 (unreadable numerals), C15
-(numeral entries with units), C16 (marks that are no brackets), C18 (debug tokenizers in threads). Monitors extended after *reading* a change description but before running it:
+(numeral entries with units), C16 (marks that are no brackets), C18 (debug tokenizers in threads); after round eleven: C04 (upper-case hex escapes,
+version-2 stacks), C06 (second compile, failing read after resolve), C07 (`#` inside entries), C08 (copy of a built buffer), C09
+(`set_mode` before on-demand splits), C10 / C19 (rejected line in a CLI file; kept results after reuse of a list that shares
+their text), C11 (formats without synonym ids; narrow `fields=` with projections), C13 / C02 (regex alternations, huge
+`maxLength`, dictionary candidates against word starts), C15 (separators inside a unit's coefficient), C16 (middle-dot
+ellipses in the converse clause, long words after a terminator), C19 (accessor panics while reference values are computed),
+shared generator (user-dictionary rows with cost -32768: the loader's cost estimate, never executed before - found with
+`lib/coverage.sh`). Monitors extended after *reading* a change description but before running it:
 C02 (OOV parameters vs definitions, empty input), C04/C05 (keys starting with `#`, other negative left ids), C06 (call
 sequences, user dictionaries, must-accept ids, 127/128/129-unit strings), C08 (rejected edit batches), C09 (modes
 reached through set_subset + set_mode), C11 (long strings), C14 (comparison with the mode-C analysis, degenerate merges),
